@@ -79,6 +79,10 @@ def gen_cases(rng, tier):
         else:
             ops = rand_path_ops(rng, w / 2 + rng.uniform(-w, w) * 0.4, h / 2 + rng.uniform(-h, h) * 0.4, max(w, h) * rng.uniform(0.3, 1.2), curves=rng.random() < 0.5)
         cases.append(("hair_px", [cap, int(aa), width, w, h, 1 if w <= 40 else 0] + (rand_ts(rng) if rng.random() < 0.3 else list(IDENT)) + ops))
+    # large cubics with lopsided control polygons (the subdivision count must follow the larger deviation)
+    for i in range(24 if tier == "quick" else 400):
+        w, h = rng.choice([(200, 120), (160, 160), (120, 200)])
+        cases.append(("hair_px", [rng.randrange(3), i % 2, 0, w, h, 0] + list(IDENT) + lopsided_cubic_ops(rng, w, h)))
     return cases
 
 
